@@ -370,7 +370,9 @@ Inductive vstep :=
 | Base (s : step)
 | VerifyOk (o : oid)
 | VerifyBad (o : oid)
-| VerifyDrop (o : oid).
+| VerifyDrop (o : oid)
+| VLink (o : oid) (b : bytes).   (* hardlink=True: os.link(source, final name); b = what the source holds NOW
+                                    (it may have been rewritten after staging); FileExistsError = skip *)
 
 Definition vworld := (world * list (nat * oid))%type.
 
@@ -401,6 +403,19 @@ Definition vexec (loc : bool) (its : items) (i : nat) (s : vstep) (v : vworld) :
       | None => None
       | Some _ => let w := fst v in
                   Some (mkworld (odel o (w_objs w)) (w_tmps w) (w_rows w) (w_ever w) (w_next w) (w_dirs w), snd v)
+      end
+  | VLink o b =>
+      match oget o its with
+      | None => None
+      | Some _ =>
+          let w := fst v in
+          if memo (prefix o) (w_dirs w) then
+            match oget o (w_objs w) with
+            | Some _ => Some v                                   (* the name exists: skipped *)
+            | None => Some (mkworld (oput o (mkfile (w_next w) b false) (w_objs w)) (w_tmps w) (w_rows w)
+                                    (o :: w_ever w) (N.succ (w_next w)) (w_dirs w), snd v)
+            end
+          else None
       end
   end.
 
